@@ -703,6 +703,24 @@ fn main() {
 			};
 			enumerate(&mut c, &mut out, 0, "update_state", json!(null), &[], &mut f, false);
 		}
+		// ---- a scan that drops pending transactions (delete_unconfirmed) while a send is reserved
+		{
+			let args4 = InitTxArgs { amount: 70_000_000_000, minimum_confirmations: 1, max_outputs: 500,
+				num_change_outputs: 1, selection_strategy_is_use_all: false, ..Default::default() };
+			let pending = guarded(|| -> Result<(), Error> {
+				let sl = c.s.with(0, |b, m| owner::init_send_tx(b, m, args4, false))?;
+				let _ = c.num(sl.id);
+				c.s.with(0, |b, m| owner::tx_lock_outputs(b, m, &sl))?;
+				Ok(())
+			});
+			if let Ok(Ok(())) = pending {
+				let mut f = |c: &mut Ctx| {
+					let inst = c.s.wallets[0].inst.clone();
+					rc_of(&guarded(|| owner::scan(inst.clone(), None, Some(1), true, &None)))
+				};
+				enumerate(&mut c, &mut out, 0, "scan_drop", json!(null), &[], &mut f, false);
+			}
+		}
 		// ---- restore from the recovery phrase, interrupted
 		restore_scan_enum(&mut c, &mut out);
 		drop(c);
